@@ -39,6 +39,13 @@ func (g *gzipResponseWriter) WriteHeader(code int) {
 		return
 	}
 
+	// An informational status (1xx interim response, e.g. 103 Early Hints) is forwarded at once and
+	// decides nothing: the final status still follows.
+	if code >= 100 && code < 200 && code != http.StatusSwitchingProtocols {
+		g.ResponseWriter.WriteHeader(code)
+		return
+	}
+
 	g.statusCode = code
 	g.wroteHeader = true
 }
